@@ -5,15 +5,22 @@ import Driver.Util
   `run <scn> <mmap> <order> <isz> <off> <flen> <shape> <topo> <progs> <sched>`
       scn   = fh (proxy over an open BytesIO handle) | fhmin (handle object without fileno/readinto) |
               fhos (real OS file object passed as the handle: np.memmap succeeds) |
-              keep (path, keep_file_open=True) | keepgz (.gz path, keep_file_open=True)
-      topo  = `-` or comma separated derivations of further proxies from existing ones: `c<src>` = copy(),
-              `u<src>` = copy.copy()/unpickle (__setstate__), `r<src>:<d0>x<d1>..` = reshape(); proxy 0 = original
+              fhop (an `Opener` object wrapping a BytesIO passed as the handle) |
+              keep (path, keep_file_open=True) | keepgz (.gz path, keep_file_open=True) |
+              name (path, keep_file_open=False: one handle per read) |
+              namegz (.gz path, keep_file_open=False: indexed_gzip persists the opener all the same)
+      topo  = `-` or the comma separated history of the family: `c<src>` = copy(), `u<src>` = copy.copy()/unpickle
+              (__setstate__), `r<src>:<d0>x<d1>..` = reshape(), `n` = a further construction on the same
+              file_like, `x<p>` = a completed single-threaded read through proxy p; proxy 0 = original
+  `topo <scn> <topo>`: lock / handle / kind topology of the family after the history: per proxy the lock
+      (first-seen numbering), the OS-level handle its reads go through (first-seen numbering of sharing
+      classes) and where the handle comes from (h = caller's object, p = persistent opener, r = per read)
       progs = threads separated by `|`; reads of a thread separated by `/`; a read is `p<k>[L]=<W|idx>`
               (`W` = np.asarray(proxy k), idx in the C06 syntax, `L` = caller holds `proxy._lock` around the read)
       sched = comma separated thread ids (`-` = empty)
       output: `<event trace> | <per-thread results>`
   `raw <flen> <nh> <progs> <sched>`: explicit action programs (threads `|`, actions `,`):
-      a<l> r<l> s<o> e t R<n> p<k> o S g ; file byte i = (7*i+3) % 251 ; output: event trace
+      a<l> r<l> s<o> e t R<n> p<k>[:<q>] o S[<q>] g[<q>] ; file byte i = (7*i+3) % 251 ; output: event trace
 -/
 namespace Nb.Drv.C14
 open Nb Nb.C14
@@ -61,46 +68,75 @@ def parseIdx? (s : String) : Option (List C06.IdxItem) :=
 
 def parseSched? (s : String) : Option (List Nat) := parseNatList? s
 
-/-- proxy table of a run: lock and shape of every proxy (index 0 = the original) -/
+/-- proxy table of a run: the family (locks, handle kinds, openers) and the shape of every proxy -/
 structure PTab where
-  locks  : List Nat
+  fam    : Fam
   shapes : List (List Nat)
 
-/-- one derivation step `c<src>` (copy), `u<src>` (copy.copy / unpickle), `r<src>:<d0>x<d1>…` (reshape) -/
-def parsePOp? (s : String) : Option (POp × Option (List Nat)) :=
+/-- one history step: `c<src>` (copy), `u<src>` (copy.copy / unpickle), `r<src>:<d0>x<d1>…` (reshape),
+    `n` (further construction), `x<p>` (a completed read through proxy p) -/
+def parseHOp? (s : String) : Option (HOp × Option (List Nat)) :=
   let arg := (s.drop 1).toString
-  if s.startsWith "c" then arg.toNat?.map (fun k => (POp.copy k, none))
-  else if s.startsWith "u" then arg.toNat?.map (fun k => (POp.setstate k, none))
+  if s = "n" then some (HOp.ctor, none)
+  else if s.startsWith "c" then arg.toNat?.map (fun k => (HOp.derive (POp.copy k), none))
+  else if s.startsWith "u" then arg.toNat?.map (fun k => (HOp.derive (POp.setstate k), none))
+  else if s.startsWith "x" then arg.toNat?.map (fun k => (HOp.use k, none))
   else if s.startsWith "r" then
     match arg.splitOn ":" with
     | [k, shp] =>
         match k.toNat?, (shp.splitOn "x").mapM String.toNat? with
-        | some k, some shp => some (POp.reshape k, some shp)
+        | some k, some shp => some (HOp.derive (POp.reshape k), some shp)
         | _, _ => none
     | _ => none
   else none
 
-/-- build the proxy table; ill-formed histories (source does not exist, reshape changes the size) → none -/
-def buildTab (hasFh : Bool) (shape : List Nat) (topo : String) : Option PTab :=
-  if topo = "-" then some ⟨proxyLocks hasFh [], [shape]⟩ else
-  match (topo.splitOn ",").mapM parsePOp? with
+/-- build the proxy table; ill-formed histories (source does not exist, reshape changes the size — unless
+    `checkSize = false`: the `topo` operation does not know the shapes) → none -/
+def buildTab (kind : HKind) (igz : Bool) (shape : List Nat) (topo : String) (checkSize : Bool := true) :
+    Option PTab :=
+  if topo = "-" then some ⟨Fam.root kind, [shape]⟩ else
+  match (topo.splitOn ",").mapM parseHOp? with
   | none => none
   | some steps =>
       let ops := steps.map (·.1)
-      if !validOps 1 ops then none else
+      if !validHist igz (Fam.root kind) ops then none else
       let shapes? := steps.foldl (fun (acc : Option (List (List Nat))) st =>
         match acc with
         | none => none
         | some shs =>
-            let src := shs.getD st.1.src []
-            match st.2 with
-            | none => some (shs ++ [src])
-            | some shp => if shp.foldl (· * ·) 1 = src.foldl (· * ·) 1 then some (shs ++ [shp]) else none)
+            match st.1 with
+            | .use _ => some shs
+            | .ctor => some (shs ++ [shape])
+            | .derive op =>
+                let src := shs.getD op.src []
+                match st.2 with
+                | none => some (shs ++ [src])
+                | some shp =>
+                    if !checkSize || shp.foldl (· * ·) 1 = src.foldl (· * ·) 1 then some (shs ++ [shp]) else none)
         (some [shape])
-      shapes?.map (fun shs => ⟨proxyLocks hasFh ops, shs⟩)
+      shapes?.map (fun shs => ⟨(Fam.root kind).run igz ops, shs⟩)
+
+/-- first-seen numbering of a list of values -/
+def firstSeen {α : Type} [BEq α] (l : List α) : List Nat :=
+  (l.foldl (fun (acc : List α × List Nat) x =>
+    match acc.1.findIdx? (· == x) with
+    | some k => (acc.1, acc.2 ++ [k])
+    | none => (acc.1 ++ [x], acc.2 ++ [acc.1.length])) ([], [])).2
+
+def showKind : HKind → String
+  | .handle => "h" | .persist => "p" | .perRead => "r"
+
+/-- scenario → (root kind, np.memmap succeeds on the handle, compressed-file object, indexed gzip name) -/
+def scenario? (scn : String) : Option (HKind × Bool × Bool × Bool) :=
+  if scn = "fh" ∨ scn = "fhmin" ∨ scn = "fhop" then some (.handle, false, false, false)
+  else if scn = "fhos" then some (.handle, true, false, false)
+  else if scn = "keep" then some (.persist, true, false, false)
+  else if scn = "keepgz" ∨ scn = "namegz" then some (.persist, false, true, true)
+  else if scn = "name" then some (.perRead, true, false, false)
+  else none
 
 /-- a read `p<k>[L]=<W|idx>` through proxy `k`; returns the request and the shape of that proxy -/
-def parseReq? (tab : PTab) (s : String) : Option (Req × List Nat) :=
+def parseReq? (tab : PTab) (s : String) : Option (Req × List Nat × Nat) :=
   match s.splitOn "=" with
   | [who, idx] =>
       if !who.startsWith "p" then none else
@@ -110,26 +146,32 @@ def parseReq? (tab : PTab) (s : String) : Option (Req × List Nat) :=
       | none => none
       | some k =>
           if who ≠ "p" ++ num ++ (if outer then "L" else "") then none else
-          if k < tab.locks.length then
-            let l := tab.locks.getD k 0
+          if k < tab.fam.n then
+            let l := tab.fam.lock k
             let shp := tab.shapes.getD k []
-            if idx = "W" then some (⟨l, outer, none⟩, shp)
-            else (parseIdx? idx).map (fun i => (⟨l, outer, some i⟩, shp))
+            if idx = "W" then some (⟨l, outer, none⟩, shp, k)
+            else (parseIdx? idx).map (fun i => (⟨l, outer, some i⟩, shp, k))
           else none
   | _ => none
 
-def parseThread? (tab : PTab) (s : String) : Option (List (Req × List Nat)) :=
+def parseThread? (tab : PTab) (s : String) : Option (List (Req × List Nat × Nat)) :=
   if s = "-" then some [] else (s.splitOn "/").mapM (parseReq? tab)
 
 def parseAction? (s : String) : Option Action :=
   let arg := (s.drop 1).toString
   if s = "e" then some .seekEnd else if s = "t" then some .tell
-  else if s = "o" then some .opn else if s = "S" then some .setSlot else if s = "g" then some .getSlot
+  else if s = "o" then some .opn
+  else if s.startsWith "S" then (if arg = "" then some (.setSlot 0) else arg.toNat?.map Action.setSlot)
+  else if s.startsWith "g" then (if arg = "" then some (.getSlot 0) else arg.toNat?.map Action.getSlot)
   else if s.startsWith "a" then arg.toNat?.map Action.acquire
   else if s.startsWith "r" then arg.toNat?.map Action.release
   else if s.startsWith "s" then arg.toNat?.map Action.seek
   else if s.startsWith "R" then arg.toNat?.map Action.read
-  else if s.startsWith "p" then arg.toNat?.map Action.probe
+  else if s.startsWith "p" then
+    match arg.splitOn ":" with
+    | [k] => k.toNat?.map (Action.probe 0)
+    | [k, q] => (match k.toNat?, q.toNat? with | some k, some q => some (Action.probe q k) | _, _ => none)
+    | _ => none
   else none
 
 def parseRawThread? (s : String) : Option (List Action) :=
@@ -161,31 +203,26 @@ def fullSched (file : List Byte) (n : Nat) (progs : Tid → List Action) (s0 : S
 
 def handle : List String → String
   | ["run", scn, mm, ord, isz, off, flen, shape, topo, progs, sched] =>
-      -- scenario → (persistent opener, np.memmap succeeds on the handle, compressed-file object)
-      let scn? : Option (Bool × Bool × Bool) :=
-        if scn = "fh" ∨ scn = "fhmin" then some (false, false, false)
-        else if scn = "fhos" then some (false, true, false)
-        else if scn = "keep" then some (true, true, false)
-        else if scn = "keepgz" then some (true, false, true)
-        else none
-      match scn?,
+      match scenario? scn,
             (if mm = "1" then some true else if mm = "0" then some false else none),
             (if ord = "C" then some C06.Order.C else if ord = "F" then some C06.Order.F else none),
             isz.toNat?, off.toNat?, flen.toNat?, parseNatList? shape, parseSched? sched with
-      | some (persist, mappable, compressed), some mmap, some o, some isz, some off, some flen, some shape, some sched =>
-          if persist ∧ topo ≠ "-" then "bad-op" else
-          match buildTab (!persist) shape topo with
+      | some (kind, mappable, compressed, igz), some mmap, some o, some isz, some off, some flen, some shape, some sched =>
+          match buildTab kind igz shape topo with
           | none => "bad-op"
           | some tab =>
           match (progs.splitOn "|").mapM (parseThread? tab) with
           | none => "bad-op"
           | some reqs =>
-              let c : Cfg := { persist := persist, mmap := mmap, order := o, isz := isz, off := off, flen := flen,
+              let c : Cfg := { persist := false, mmap := mmap, order := o, isz := isz, off := off, flen := flen,
                                shape := shape, mappable := mappable, compressed := compressed }
-              let plans := reqs.map (fun th => th.map (fun rq => plan { c with shape := rq.2 } rq.1))
+              let plans := reqs.map (fun th => th.map (fun rq =>
+                let k := tab.fam.kind rq.2.2
+                plan { c with shape := rq.2.1, persist := k == .persist, perRead := k == .perRead,
+                              slotIx := rq.2.2 } rq.1))
               let prog : Tid → List Action := fun t => ((plans.getD t []).map (·.prog)).flatten
               let file := mkFile c
-              let s0 := State.init prog (if persist then 0 else 1)
+              let s0 := State.initS prog tab.fam.nopen tab.fam.opener
               let sched := fullSched file plans.length prog s0 sched
               let tr := trace file s0 sched
               let sEnd := runS file s0 sched
@@ -195,6 +232,18 @@ def handle : List String → String
                 else "INCOMPLETE")
               showTrace tr ++ " | " ++ ";".intercalate res
       | _, _, _, _, _, _, _, _ => "bad-op"
+  | ["topo", scn, topo] =>
+      match scenario? scn with
+      | none => "bad-op"
+      | some (kind, _, _, igz) =>
+          match buildTab kind igz [1] topo false with
+          | none => "bad-op"
+          | some tab =>
+              let f := tab.fam
+              let ix := List.range f.n
+              "L" ++ ",".intercalate ((firstSeen (ix.map f.lock)).map toString) ++
+              " H" ++ ",".intercalate ((firstSeen (ix.map f.handleOf)).map toString) ++
+              " K" ++ "".intercalate (ix.map (fun i => showKind (f.kind i)))
   | ["raw", flen, nh, progs, sched] =>
       match flen.toNat?, nh.toNat?, (progs.splitOn "|").mapM parseRawThread?, parseSched? sched with
       | some flen, some nh, some ps, some sched =>
